@@ -108,7 +108,7 @@ def group_observations(obs_by_cfg):
 
 def part_generated(ctx, cfgs):
     t0 = time.time()
-    n = 40 if ctx.tier == "quick" else 400
+    n = 40 if ctx.tier == "quick" else 100
     items, stats = D.generate(ctx, "c02gen", n, ncalls=6)
     obs = D.observe_all(items, cfgs, procs=3)
     n_cmp = 0
@@ -293,8 +293,70 @@ def _corpus_one(args):
         return (k, j, "exc", (type(e).__name__, str(e)[:300]))
 
 
+# minimized past failures (run with the corpus, first)
+REGRESS = [
+    ("regress/disable_sccp_literal_jnz", """
+@external
+def f(x: uint256) -> uint256:
+    if True:
+        return x
+    return 0
+
+@external
+def g(x: uint256) -> bool:
+    return True and x > 1
+"""),
+    ("regress/call_arg_read_vs_effect", """
+arr: uint256[4]
+
+@internal
+def wr() -> uint256:
+    self.arr[1] = 55
+    return 1
+
+@internal
+def h(a: uint256, b: uint256) -> uint256:
+    return a * 10 + b
+
+@external
+def t() -> uint256:
+    self.arr[1] = 8
+    return self.h(self.arr[1], self.wr())
+"""),
+    ("regress/default_empty_bucket", """
+event Fell:
+    x: uint256
+
+@external
+def f0() -> uint256:
+    return 0
+
+@external
+def f1() -> uint256:
+    return 1
+
+@external
+def f2() -> uint256:
+    return 2
+
+@external
+def f3() -> uint256:
+    return 3
+
+@external
+def __default__():
+    x: uint256 = 0
+    if len(msg.data) >= 4:
+        x = 1
+    log Fell(x=x)
+"""),
+]
+
+
 def load_corpus(ctx):
     jobs = []
+    for name, src in REGRESS:
+        jobs.append({"name": name, "src": src, "helper": None, "min_evm": None})
     try:
         from vlib import c02_corpus
         for ent in c02_corpus.CORPUS:
@@ -376,6 +438,9 @@ def part_corpus(ctx, cfgs):
 
 
 def run(ctx):
+    from vlib.c01_replay import replay
+    if replay(ctx):
+        return
     cfgs = configs(ctx.tier)
     n1 = part_pass_order(ctx)
     n2 = part_generated(ctx, cfgs)
